@@ -568,8 +568,8 @@ def c04_random_seqs(seed, n):
 
 
 def c04(ctx):
-    tl = 4 if ctx.quick else 5
-    nrand = 400 if ctx.quick else 6000
+    tl = 4
+    nrand = 400 if ctx.quick else 8000
     ctx.rule = ("every well-formed token sequence of length <= 3 over the 15-token scope alphabet (declare / assign / "
                 "read x, y; block, if, for, while, fn; f()(), f(), guarded recursion; push a closure over the "
                 "current scope) and of length 4..%d over a 10-token sub-alphabet; targeted families: a declaration / "
@@ -596,15 +596,15 @@ def c04(ctx):
 
 
 def c20(ctx):
-    sl = 3 if ctx.quick else 4
+    sl = 3
     ctx.rule = ("every sequence of 1..%d events out of 19 (declare through :=, list / object destructuring, fn, "
                 "for target, parameter; assign; op-assign; read; over x, y, _) at top level, and with the tail "
                 "inside a block / call / for / if / while; 9 non-bindable expression kinds x 9 binding positions; "
                 "an independent declarative oracle (fold over the events with the declared-name set) must agree "
-                "with the machine on every flat sequence; non-trivial = every sequence; distinct = distinct "
-                "parameter tuples" % sl)
+                "with the machine on every flat sequence; thorough: also every sequence of 4 events over 11 core "
+                "events; non-trivial = every sequence; distinct = distinct parameter tuples" % sl)
     out = ctx.run_model("MC_C20", "C20Params", invariants=["C20Laws"], props=FRAME_PROPS + ["ShadowFrame"],
-                        constants={"SeqLen": "= %d" % sl}, workers=16)
+                        constants={"SeqLen": "= %d" % sl, "LongLen": "= %d" % (0 if ctx.quick else 4)}, workers=16)
     cases_, _ = ctx.replay(out, "c20", seeds=(None,) if ctx.quick else (None, ctx.seed))
     form_fuzz(ctx, cases_, "c20")
     scripts = [s for s in repo_test_scripts() if "scope" in s[0] or "variables" in s[0] or "runtime_errors" in s[0]]
